@@ -86,6 +86,45 @@ CLAIMED = {
              "the unaligned uint64 store is UB in ISO C and relied upon on x86-64; 'compiles' is decided by gcc.",
         technique="Lean 4 proof (bit-field OR = concatenation; decode-encode identity) + compiled-code correspondence",
         ref="DESIGN.md section 8, C06"),
+    "C07": dict(
+        text="Partial. Lean theorems, at token level against a reference recursive-descent parser for the FCP grammar: parsing inverts printing for the "
+             "two recursive productions, `type` (any nesting of [T,n], [T], Optional[T]) and `value` (arrays nested to any depth), for every printing "
+             "(relation-style: all spellings, all line numbers); one default binding per struct. The flat productions and the character level "
+             "(whitespace, comments, optional separators) are covered by the tie only: the real Lark front end, the Lean reference front end (lexer + "
+             "parser + transformer actions) and the printed description are compared on generated texts over every production under canonical, dense "
+             "and random formatting.",
+        note="Domain restricted to where the grammar is unambiguous: word-like tokens separated, parameters written with parentheses; Lark's Earley "
+             "engine is not modelled.",
+        technique="Lean 4 proof (parse-print inverse for the recursive productions) + three-way differential check",
+        ref="DESIGN.md section 8, C07"),
+    "C08": dict(
+        text="Lean theorems about the reference front end (parser + transformer actions folded in source order + module loading over an abstract file "
+             "system): every accepted tree, for any file system and any depth of imports, has all struct/enum references (at any nesting depth) resolving to "
+             "a declared struct/enum of the tagged kind (invariant by induction over the declaration list and over import depth); a reference at any depth to "
+             "a name not declared so far is an error whose first message names the type and whose chain names the enclosing struct; a struct is not visible "
+             "to its own fields. Tie: generated schemas with forward/self/undeclared references at any depth, real Result and FcpV2.get_type on every field "
+             "type vs the model, error texts compared verbatim.",
+        note="Kinds are unambiguous under unique type names (verifier rule, C09).",
+        technique="Lean 4 proof (resolver invariant by induction over declarations and imports) + differential check",
+        ref="DESIGN.md section 8, C08"),
+    "C11": dict(
+        text="Partial. Lean theorems about the reference front end: it is total (returns a tree or an error value for every file system, root and fuel), "
+             "a syntax error is an error value citing its file, and every line number the lexer attaches to a token or to a lexical error lies between 1 and "
+             "the number of lines of the source (induction over the lexer's runs). That no exception escapes the real parser and that every error renders "
+             "with existing cited lines is checked by the harness on random text, every kind of prefix, token-level mutations and out-of-domain literals.",
+        note="Exception propagation (Lark VisitError, beartype, assert) is CPython behaviour a model cannot exhibit.",
+        technique="Lean 4 proof (totality, lexer line bounds) + malformed-input streams against the real parser",
+        ref="DESIGN.md section 8, C11"),
+    "C20": dict(
+        text="Lean theorems about the reference module loader: if the root file's declarations are a split of `flat` into a tree of module files (a prefix "
+             "moved into a module, recursively to any import depth, dotted paths resolved relative to the importing file), loading the root yields the same "
+             "tree as the single file and fails exactly when it fails (split_equiv: file names only occur inside error values; errors are sticky); a missing "
+             "module file is an error naming the file; an error inside a module is wrapped in an error naming the module and citing the import line; all five "
+             "declaration lists are merged. Tie: generated schemas split into module trees on a temp directory vs their single-file twin, with injected "
+             "syntax/resolution errors and deleted files.",
+        note="Partial: arbitrary (non-prefix) declare-before-use-closed subsets need a frame lemma that is exercised but not proved.",
+        technique="Lean 4 proof (split-equivalence by induction over the module tree) + split-vs-single differential check",
+        ref="DESIGN.md section 8, C20"),
     "C09": dict(
         text="Lean theorems: the model of Verifier.verify (category loop, registered checks in registration order, the code's own count>1 idiom) "
              "returns ok iff WellFormed S, iff WellFormed S and DbcOk S with the DBC checks, iff WellFormed S and COk S with the C checks; and the "
